@@ -49,7 +49,7 @@ def check(an, rep, tier):
                    'economic rq -> (R, orthonormal rows), svd -> (U cols, s, V '
                    'rows), eigh of A A^T whitened by 1/sqrt(w) -> orthonormal '
                    'rows']
-    ds = (2, 3) if tier == 'quick' else (2, 3, 4)
+    ds = (2, 3) if tier == 'quick' else (2, 3, 4, 5)
     wh = {'utils._reshape', 'transformation.truncate', 'svd.matrix_svd', 'svd.matrix_skeleton',
           'act_many.add_many'}
     runs = sweep(an, rep, ['transformation.truncate', 'act_many.add_many'], ds,
